@@ -4,6 +4,7 @@ from .roles import PERMIT_ADT, classify_write, adt_of
 from .facts import strip_generics
 from .analysis import sources
 from . import rules_C01
+from . import poscontrol
 
 TECHNIQUE = 'MIR event-CFG rules: permit typestate, must-pass-through on return/take paths, panic-site inventory, lock-region analysis (may-init dataflow of MutexGuard locals)'
 LEVEL_TEXT = 'static analysis of every path of getter / return / take; lock discipline over the whole managed module'
@@ -65,6 +66,19 @@ def run(ctx):
     for o in ctx.obs[n0:]:
         o['rule'] = 'R02.1/' + o['rule']
     ctx.not_decided.clear()
+    # ---- R02.9 = the shrink / grow ledger of resize(), the other place where permits leave or enter circulation
+    # (the capacity-ledger rule R07.5 itself is C07's known finding D1 and is not repeated here)
+    from . import rules_C07
+    n0 = len(ctx.obs)
+    rules_C07.run(ctx)
+    keep = ctx.obs[:n0]
+    for o in ctx.obs[n0:]:
+        if o['rule'] == 'R07.5':
+            continue
+        o['rule'] = 'R02.9/' + o['rule']
+        keep.append(o)
+    ctx.obs[:] = keep
+    ctx.not_decided.clear()
 
     # ---- R02.2 every end of an Object gives the capacity back exactly once ---
     for helpers, root, what in ((r.RETURN, r.OBJ_DROP, 'Object::drop'), (r.TAKE, r.OBJ_TAKE, 'Object::take')):
@@ -102,6 +116,17 @@ def run(ctx):
                 hit = any(d in reach for d in decs) or any(han.dominates(d, sblk) for d in decs)
                 ctx.ob('R02.2', 'surplus branch releases the size slot', hit, ctx.where(h, h.blocks[sblk].term.line), '',
                        construct='%s:surplus-size' % what)
+
+    # ---- R02.8 a panicking Manager::detach cannot skip the release of the size slot ---------------
+    # (outside retain(), whose callbacks run under the lock and poison the pool anyway - documented)
+    for b in [r.UNREADY_DROP, r.RESIZE, r.CLOSE] + [h for h in r.RETURN + r.TAKE if h.path not in (r.OBJ_DROP.path, r.OBJ_TAKE.path)]:
+        ban = prog.an(b)
+        decs = [bb for bb, i, s in r.field_writes(b, r.SLOTS, r.SIZE) if classify_write(ban, s)[0] == '-=']
+        for d in manager_calls(b, MANAGER_DETACH):
+            ok = any(ban.dominates(x, d.idx) for x in decs)
+            ctx.ob('R02.8', 'size slot released before the detach callback runs', ok, ctx.where(b, d.term.line),
+                   'Manager::detach is called before `size -= 1`: if it panics the slot is never released and one unit of capacity is lost for good' if not ok else '',
+                   construct='detach-before-size:' + b.name)
 
     # ---- R02.3 a failed recycle does not end the call ------------------------
     recs = [prog.bodies[p] for p in r.GETTER if manager_calls(prog.bodies[p], MANAGER_RECYCLE)]
@@ -282,6 +307,7 @@ def run(ctx):
                    'call of %s while the slots lock is held' % '/'.join(sorted(names)) if not ok else '',
                    construct='under-lock:%s:%s' % (b.name, '/'.join(sorted(names))))
     ctx.count('calls_under_lock', n_regions)
+    poscontrol.assert_controls(ctx, ['await-under-lock', 'relock', 'permit-leak', 'panic:pc_explicit_panic'])
     ctx.floor('R02.6', 'calls examined inside lock regions', n_regions, 20)
 
     ctx.not_decided += [
